@@ -308,6 +308,32 @@ mut("abt-try-update-ignores-held-lock-result", "vouched_time/src/atomic_base_tim
     "            Err(Poisoned(_)) => {\n                self.lock.clear_poison();\n                return self.try_update(update);\n            }",
     [])
 
+# ---- nfs_voucher --------------------------------------------------------------
+mut("nfs-no-device-test", "vouched_time/src/nfs_voucher.rs",
+    "    if !TRUSTED_PATHS.read().unwrap().contains_key(&dev) && options.extra_device != Some(dev) {",
+    "    if TRUSTED_PATHS.read().unwrap().is_empty() && options.extra_device != Some(dev) {",
+    ["C19"])
+mut("nfs-untrusted-reports-none-but-updates", "vouched_time/src/nfs_voucher.rs",
+    "    if !TRUSTED_PATHS.read().unwrap().contains_key(&dev) && options.extra_device != Some(dev) {\n        return Ok((stat, None));\n    }",
+    "    if !TRUSTED_PATHS.read().unwrap().contains_key(&dev) && options.extra_device != Some(dev) {\n        if !TRUSTED_PATHS.read().unwrap().is_empty() {\n            let ms = (stat.ctime() as u64).saturating_mul(1000);\n            let _ = BASE_TIME.try_update((ms, VOUCH_PARAMS.vouch(ms)));\n        }\n        return Ok((stat, None));\n    }",
+    ["C19"])
+mut("nfs-mtime-instead-of-ctime", "vouched_time/src/nfs_voucher.rs",
+    "    let millis_since_epoch = (stat.ctime() as u64)\n        .saturating_mul(1000)\n        .saturating_add((stat.ctime_nsec() as u64) / 1_000_000);",
+    "    let millis_since_epoch = (stat.mtime() as u64)\n        .saturating_mul(1000)\n        .saturating_add((stat.mtime_nsec() as u64) / 1_000_000);",
+    ["C19"])
+mut("nfs-voucher-for-seconds", "vouched_time/src/nfs_voucher.rs",
+    "    let update = (millis_since_epoch, VOUCH_PARAMS.vouch(millis_since_epoch));",
+    "    let update = (millis_since_epoch, VOUCH_PARAMS.vouch(millis_since_epoch - millis_since_epoch % 1000 * ((millis_since_epoch % 7 == 0) as u64)));",
+    ["C19"])
+mut("nfs-add-trusted-before-check", "vouched_time/src/nfs_voucher.rs",
+    "        file.set_times(std::fs::FileTimes::new().set_accessed(std::time::SystemTime::now()))?;",
+    "        file.set_times(std::fs::FileTimes::new().set_accessed(std::time::SystemTime::now()).set_modified(std::time::SystemTime::UNIX_EPOCH + std::time::Duration::from_secs(4_000_000_000)))?;",
+    [])
+mut("abt-filter-removed-for-nfs", "vouched_time/src/atomic_base_time.rs",
+    "        if update.0 < current_base_time_ms {\n            // The update is older than the current value; skip it.\n            return false;\n        }",
+    "        if update.0 < current_base_time_ms && update.0 < 1_000_000 {\n            // The update is older than the current value; skip it.\n            return false;\n        }",
+    ["C19"])
+
 # ---- streaming / iovec behaviour seen through the codecs -------------------
 mut("iovec-consume-bytes-forgets-size", "owning_iovec/src/global_deque.rs",
     "                *slice = IoSlice::new(new_slice);\n                self.consumed_size += num_to_consume as u64;",
